@@ -29,6 +29,8 @@ func checkC08(c *Check, a *Anchors) {
 	c08RootRef(c, a)
 	c08IncludeBase(c, a)
 	c08IncludeAttrsRegardlessOfFlatten(c, a)
+	c08IncludeDirAlwaysResolved(c, a)
+	c08SpecialDirByName(c, a)
 }
 
 // c08IncludeBase: sibling agreement between ResolveEntrypoint and ResolveDir of the local node types.
@@ -901,4 +903,91 @@ func hasMutableElems(t types.Type) bool {
 		return hasMutableElems(x.Underlying())
 	}
 	return false
+}
+
+// c08IncludeDirAlwaysResolved: an include without `dir:` runs in the directory of the Taskfile that declares it.
+func c08IncludeDirAlwaysResolved(c *Check, a *Anchors) {
+	c.Rule("include-dir-always-resolved", "in the reader, the directory of every include goes through the including node's ResolveDir unconditionally (an empty `dir:` resolves to the directory of the Taskfile that contains the include statement): resolving only a non-empty dir leaves nested includes of a Taskfile in a sub-directory with an empty directory, and their tasks run wherever the outer include or the executor happens to be")
+	n := 0
+	for _, fb := range c.P.BodiesIn(PkgTaskfile) {
+		info := fb.Info()
+		for _, call := range callsIn(fb, false) {
+			fn, ok := callee(info, call).(*types.Func)
+			if !ok || fn.Name() != "ResolveDir" || len(call.Args) != 1 || !fieldOrLocalOf(c.P, info, call.Args[0], PkgAst, "Include", "Dir") {
+				continue
+			}
+			n++
+			c.Fn(fb.Root())
+			// no enclosing condition between the call and the function body
+			pm := parentMap(fb.Body)
+			cond := ""
+			for p := pm[call]; p != nil; p = pm[p] {
+				switch x := p.(type) {
+				case *ast.IfStmt:
+					if within(call, x.Body) || (x.Else != nil && within(call, x.Else)) {
+						cond = exprStr(x.Cond)
+					}
+				case *ast.CaseClause:
+					cond = "a switch case"
+				}
+			}
+			c.Decide(cond == "", "include-dir-always-resolved", "ResolveDir@"+fnDisplay(fb.Root()), call.Pos(), "resolved for every include",
+				"the include's directory is resolved only under `"+cond+"`: an include that does not satisfy it keeps its raw (empty or relative) directory")
+		}
+	}
+	c.Floor("include-dir-always-resolved", n, 1)
+}
+
+// c08SpecialDirByName: an included task's own `dir:` that is written with one of the absolute special variables is not joined
+// onto the include's directory.
+func c08SpecialDirByName(c *Check, a *Anchors) {
+	c.Rule("special-dir-by-name", "filepathext's test for \"this dir is built from an absolute special variable\" looks for the variable NAME itself (`.ROOT_DIR`, `.TASKFILE_DIR`, `.USER_WORKING_DIR` — the elements of its table, undecorated) anywhere in the text: a needle that spells one particular template form (`{{.X}}`) misses `{{ .X }}`, `{{joinPath .X \"gen\"}}` …, so Tasks.Merge joins the include's directory in front of an absolute path and the task runs in a directory that task silently creates")
+	var fb *FuncBody
+	for _, b := range c.P.BodiesIn(PkgFilepathext) {
+		if b.Decl == nil {
+			continue
+		}
+		// the predicate: a bool function that ranges over a package-level []string and calls strings.Contains
+		if b.Type.Results == nil || b.Type.Results.NumFields() != 1 {
+			continue
+		}
+		for _, call := range callsIn(b, false) {
+			if isFunc(callee(b.Info(), call), "strings", "", "Contains") {
+				inspectBody(b.Body, func(nd ast.Node) bool {
+					if r, ok := nd.(*ast.RangeStmt); ok {
+						if v := varOf(b.Info(), r.X); v != nil && v.Parent() == v.Pkg().Scope() {
+							fb = b
+						}
+					}
+					return true
+				})
+			}
+		}
+	}
+	if fb == nil {
+		c.Errorf("special-dir-by-name: the special-directory predicate of internal/filepathext was not found")
+		return
+	}
+	c.Fn(fb)
+	info := fb.Info()
+	n := 0
+	inspectBody(fb.Body, func(nd ast.Node) bool {
+		r, ok := nd.(*ast.RangeStmt)
+		if !ok || r.Value == nil {
+			return true
+		}
+		el := varOf(info, r.Value)
+		inspectBody(r.Body, func(m ast.Node) bool {
+			call, ok := m.(*ast.CallExpr)
+			if !ok || !isFunc(callee(info, call), "strings", "", "Contains") || len(call.Args) != 2 {
+				return true
+			}
+			n++
+			c.Decide(el != nil && varOf(info, call.Args[1]) == el, "special-dir-by-name", "needle@"+fnDisplay(fb), call.Pos(), "the needle is the variable name from the table",
+				"the needle is `"+exprStr(call.Args[1])+"`, not the bare variable name: only one spelling of the template is recognised as an absolute special directory")
+			return true
+		})
+		return true
+	})
+	c.Floor("special-dir-by-name", n, 1)
 }
